@@ -1,13 +1,24 @@
 (** C05 — Message format expansion is exact and length-bounded.
     Only statements, each closed by [exact] of a general theorem instantiated with the
     constants regenerated from /repo (Gen.Gen_Expand), plus non-vacuity examples. *)
-From Snoopy Require Import Lib.CStr Expand.Model Expand.Proofs Expand.Tokens.
+From Snoopy Require Import Lib.CStr Expand.Model Expand.Proofs Expand.Tokens Expand.Markers.
 From Coq Require Import Strings.String.
 From Gen Require Import Gen_Expand.
 Local Open Scope N_scope.
 
 Lemma gen_ok : expand_consts_ok Gen_Expand.consts = true.
 Proof. vm_compute. reflexivity. Qed.
+
+Lemma err_texts_ok : error_texts_ok Gen_Expand.consts = true.
+Proof. vm_compute. reflexivity. Qed.
+
+(** what replaces an unterminated tag, a tag naming no data source, a tag whose data source fails: always "[ERROR: " ... "]",
+    whatever name and data-source message are spliced in *)
+Theorem C05_error_markers :
+  bracketed (e_close Gen_Expand.consts) /\ (forall name, bracketed (e_nf1 Gen_Expand.consts ++ name ++ e_nf2 Gen_Expand.consts))
+  /\ (forall name txt, bracketed (e_f1 Gen_Expand.consts ++ name ++ e_f2 Gen_Expand.consts ++ txt ++ e_f3 Gen_Expand.consts))
+  /\ e_f2 Gen_Expand.consts <> [].
+Proof. exact (error_markers Gen_Expand.consts err_texts_ok). Qed.
 
 Section C05.
   Variable known : list byte -> bool.
@@ -55,6 +66,7 @@ Section C05.
   Proof. exact (full_is_render Gen_Expand.consts eq_refl eq_refl eq_refl known ds). Qed.
 End C05.
 
+Print Assumptions C05_error_markers.
 Print Assumptions C05_bounded.
 Print Assumptions C05_ds_bounded.
 Print Assumptions C05_exact_when_fits.
